@@ -247,7 +247,9 @@ def inline_crate(crate_j):
             else:
                 co = by_key.get(b["key"] + "::{closure#0}")
                 st = [s for blk in b["blocks"] for s in blk["stmts"] if s.get("s") == "assign"]
-                if co is not None and len(b["blocks"]) == 1 and len(st) == 1 and b["blocks"][0]["term"]["t"] == "return" \
+                # the fn body only builds the coroutine (moved-in arguments may add drop elaboration blocks)
+                plain = all(blk["term"]["t"] in ("return", "drop", "goto", "resume", "unreachable") for blk in b["blocks"])
+                if co is not None and plain and len(st) == 1 and st[0]["place"]["l"] == 0 and not st[0]["place"]["p"] \
                         and len(co["blocks"]) <= MAX_BLOCKS and \
                         all(("move" in o or "copy" in o) and not (o.get("move") or o.get("copy"))["p"] for o in st[0]["rv"]["ops"]):
                     async_candidates[b["key"]] = (b, co)
